@@ -57,6 +57,17 @@ func Catch(fn func() (string, error)) (o Outcome) {
 	return Outcome{Out: s, Err: err}
 }
 
+// CatchOutcome runs a function that builds jennifer code and renders it; a panic while building is
+// reported as a panicking Outcome.
+func CatchOutcome(fn func() Outcome) (o Outcome) {
+	defer func() {
+		if r := recover(); r != nil {
+			o = Outcome{Panic: r}
+		}
+	}()
+	return fn()
+}
+
 // RenderFile renders f into a string.
 func RenderFile(f *jen.File) Outcome {
 	return Catch(func() (string, error) {
